@@ -184,7 +184,9 @@ def grammar_case(fggs, rng, tier, seed, index, viols, obs):
             if wdtype == torch.get_default_dtype():
                 b = C.call(lambda: fggs.sum_product(g, semiring=sr, kmax=30).to_dense())
                 obs['sum_product_compared'] += 1
-                if a['ok'] and b['ok']:
+                if a['ok'] and b['ok'] and (a['warnings'] or b['warnings']):
+                    obs['sum_product_unconverged_skipped'] = obs.get('sum_product_unconverged_skipped', 0) + 1     # kmax ran out: rounding differences are amplified without bound
+                elif a['ok'] and b['ok']:
                     ok = torch.allclose(a['value'], b['value'], rtol=1e-5, atol=1e-7, equal_nan=True)
                     if not ok:
                         V('roundtrip:sum-product', f'{a["value"].tolist()} vs {b["value"].tolist()}')
